@@ -190,6 +190,30 @@ fn apply(u: &Universe, def: &mut AdtDef, kind: usize, src: &mut Src) -> Option<S
             def.name = format!("{}R", def.name);
             Some("type renamed".into())
         }
+        9 => {
+            // move one letter from the end of a field name to the start of the next one: `(ab, c)` -> `(a, bc)`.
+            // The concatenation of the names is unchanged: only a hash that separates the names tells them apart.
+            const KW: [&str; 14] = ["as", "do", "fn", "if", "in", "let", "mod", "mut", "pub", "ref", "use", "for", "dyn", "box"];
+            for f in all_fields_mut(&mut def.body) {
+                if let Fields::Named(v) = f {
+                    for i in 0..v.len().saturating_sub(1) {
+                        let (a, b) = (v[i].0.clone(), v[i + 1].0.clone());
+                        if a.starts_with("r#") || b.starts_with("r#") || a.starts_with('_') || !a.is_ascii() || a.len() < 2 {
+                            continue;
+                        }
+                        let (na, nb) = (a[..a.len() - 1].to_string(), format!("{}{}", &a[a.len() - 1..], b));
+                        let taken = |n: &str| v.iter().any(|(x, _)| x == n) || KW.contains(&n);
+                        if taken(&na) || taken(&nb) || na.ends_with('_') && na.len() == 1 {
+                            continue;
+                        }
+                        v[i].0 = na;
+                        v[i + 1].0 = nb;
+                        return Some(format!("last letter of field {} moved to the front of field {}", a, b));
+                    }
+                }
+            }
+            None
+        }
         _ => {
             // positive control: identical structure in another module (deep attribute spelling toggled)
             match def.copy {
@@ -202,7 +226,7 @@ fn apply(u: &Universe, def: &mut AdtDef, kind: usize, src: &mut Src) -> Option<S
     }
 }
 
-pub const N_MUTATIONS: usize = 10;
+pub const N_MUTATIONS: usize = 11;
 
 /// Replace definition `from` by `to` everywhere in a closed type.
 pub fn retarget(t: &Ty, from: usize, to: usize) -> Ty {
